@@ -66,10 +66,13 @@ namespace rkcommon {
                     " INDEX_T to be unsigned char, short, int, uint, long,"
                     " or size_t.");
 
-      INDEX_T numBlocks = (nTasks + BLOCK_SIZE - 1) / BLOCK_SIZE;
+      // NOTE: neither nTasks + BLOCK_SIZE - 1 nor begin + BLOCK_SIZE is formed:
+      //       both overflow INDEX_T for task counts near its maximum
+      const INDEX_T blockSize = (INDEX_T)BLOCK_SIZE;
+      INDEX_T numBlocks = nTasks > 0 ? (nTasks - 1) / blockSize + 1 : 0;
       parallel_for(numBlocks, [&](INDEX_T blockID) {
-        INDEX_T begin = blockID * (INDEX_T)BLOCK_SIZE;
-        INDEX_T end   = std::min(begin + (INDEX_T)BLOCK_SIZE, nTasks);
+        INDEX_T begin = blockID * blockSize;
+        INDEX_T end = nTasks - begin > blockSize ? begin + blockSize : nTasks;
         fcn(begin, end);
       });
     }
